@@ -116,7 +116,7 @@ def reportSpec (g : G) : List Nat → List Nat → List (Nat × Nat)
   | [], _ => []
   | c :: cs, seen =>
     (if c ∈ seen then [] else ((g.conns c).filter fun y => !(seen.contains y)).map fun y => (c, y))
-      ++ reportSpec g cs (c :: seen)
+      ++ reportSpec g cs (seen ++ [c])
 
 /-! ## owner level observers: `connected`, `connections` -/
 
@@ -149,5 +149,76 @@ def stepSafe (me : May) (g : G) : SafeOp → G × Out
 /-- a history in which the permission may change between any two operations (nodes start and
 finish running) -/
 def runSafe (g : G) (h : List (May × SafeOp)) : G := h.foldl (fun g s => (stepSafe s.1 g s.2).1) g
+
+/-! ## copies as the tree has them now (a no-op `connect` is not recorded as new)
+
+`Model/Conn.lean`'s `copyConns` / `copyIo` transcribe the code as it was pinned: every attempted
+partner went into the undo log, also one that had been connected before. Since `a9e5065` the log
+only takes what the copy formed itself:
+
+    already_connected = connect_to in self.connections
+    self.connect(connect_to)
+    if not already_connected: new_connections.append(connect_to)
+-/
+
+/-- `Channel.copy_connections(other)` -/
+def copyConnsAuxN (g : G) (a : Nat) : List Nat → List Nat → G × Res
+  | [], _ => (g, .ok)
+  | c :: cs, done =>
+    let already := decide (c ∈ g.conns a)
+    match connect1 g a c with
+    | (g', .ok) => copyConnsAuxN g' a cs (if already then done else done ++ [c])
+    | (g', r) => (disconnect g' a done, r)
+
+def copyConnsN (g : G) (a b : Nat) : G × Res := copyConnsAuxN g a (g.conns b) []
+
+/-- inner loop of `HasIO._copy_connections` over the targets of one channel of `other` -/
+def copyIoTargetsN (g : G) (my : Option Nat) (failHard : Bool) :
+    List Nat → List (Nat × Nat) → G × List (Nat × Nat) × Bool
+  | [], new => (g, new, false)
+  | t :: ts, new =>
+    match my with
+    | none => if failHard then (g, new, true) else copyIoTargetsN g my failHard ts new
+    | some m =>
+      let already := decide (t ∈ g.conns m)
+      match connect1 g m t with
+      | (g', .ok) => copyIoTargetsN g' my failHard ts (if already then new else new ++ [(m, t)])
+      | (g', _) => if failHard then (g', new, true) else copyIoTargetsN g' my failHard ts new
+
+def copyIoPairsN (g : G) (failHard : Bool) :
+    List (Option Nat × Nat) → List (Nat × Nat) → G × List (Nat × Nat) × Bool
+  | [], new => (g, new, false)
+  | (my, o) :: ps, new =>
+    match copyIoTargetsN g my failHard (g.conns o) new with
+    | (g', new', true) => (g', new', true)
+    | (g', new', false) => copyIoPairsN g' failHard ps new'
+
+/-- `HasIO._copy_connections(other, fail_hard)` over the zipped panels -/
+def copyIoN (g : G) (failHard : Bool) (pairs : List (Option Nat × Nat)) : G × Res :=
+  match copyIoPairsN g failHard pairs [] with
+  | (g', new, true) => (undoPairs g' new, .connErr)
+  | (g', _, false) => (g', .ok)
+
+/-! ## the alphabet of the current tree -/
+
+inductive Op
+  | connect (a : Nat) (bs : List Nat)
+  | disconnect (a : Nat) (bs : List Nat)
+  | disconnectAll (a : Nat)
+  /-- panel / signals / node / macro / workflow `disconnect()`, `disconnect_run()`, `remove_child` -/
+  | disconnectChans (cs : List Nat)
+  | copyConns (a b : Nat)
+  | copyIo (failHard : Bool) (pairs : List (Option Nat × Nat))
+  deriving Repr
+
+def step (g : G) : Op → G × Res
+  | .connect a bs => connect g a bs
+  | .disconnect a bs => ((disconnectR g a bs).1, .ok)
+  | .disconnectAll a => ((disconnectAllR g a).1, .ok)
+  | .disconnectChans cs => ((disconnectChansR g cs).1, .ok)
+  | .copyConns a b => copyConnsN g a b
+  | .copyIo fh ps => copyIoN g fh ps
+
+def run (g : G) (ops : List Op) : G := ops.foldl (fun g o => (step g o).1) g
 
 end PwVerif.ConnOps
